@@ -22,12 +22,17 @@ import (
 //   no deadline: call.ParkedIn(...), still parked after a pause, completes when satisfied
 //   best effort: returns nil under the stuck detector, whatever the queue / peer state
 //   fail-no-peers: ErrNoPeers at once with no peer, and when the last vt peer is dropped mid-call
+//   not fail-no-peers: a peer leaving a blocked call never produces ErrNoPeers (dl-block with a
+//              leaving peer: the timeout at D; nodl-leave: still waiting after every detach)
+//   dl-inherit / dl-cross: the same early / hang / never-returns rules while the OTHER direction's
+//              deadline is unset, shorter or longer, and (dl-inherit, be, fnp-none with Inh) while
+//              the context has the options only by inheritance from its socket
 //
 // Silent / slow / leaving peers are vt pipes (HoldSends, Drop; never Inject);
 // responsive peers are real sockets over a real transport.
 
 type spec struct {
-	Kind   string `json:"kind"` // matrix | dl-block | dl-ready | nodl | be | multi | fnp-none | fnp-leave
+	Kind   string `json:"kind"` // matrix | dl-block | dl-ready | nodl | be | multi | fnp-none | fnp-leave | stale | be-multi | be-race | dl-churn | dl-inherit | dl-cross | nodl-leave
 	Proto  string `json:"proto"`
 	Obj    string `json:"obj"`            // sock | ctx
 	Op     string `json:"op,omitempty"`   // send | recv
@@ -43,9 +48,33 @@ type spec struct {
 	Left   bool   `json:"left,omitempty"` // fnp-none: a peer was connected and left before the call
 	// SurvZero: SURVEYOR with survey time 0 (no limit) instead of a long one: the receive deadline is then the only timer
 	SurvZero bool `json:"surv_zero,omitempty"`
+	// Inh: the mode options (deadlines, best effort, fail-no-peers) are set on the SOCKET before the
+	// subject context is opened and taken off the socket again afterwards: the context has them by
+	// inheritance only, never through a SetOption of its own
+	Inh bool `json:"inh,omitempty"`
+	// ODUs: the deadline of the OTHER direction in microseconds (0 = not set): a blocked Send is
+	// governed by the send deadline alone whatever the receive deadline is, and the other way round
+	ODUs int64 `json:"od_us,omitempty"`
 }
 
-func (s spec) D() time.Duration { return time.Duration(s.DUs) * time.Microsecond }
+func (s spec) D() time.Duration  { return time.Duration(s.DUs) * time.Microsecond }
+func (s spec) OD() time.Duration { return time.Duration(s.ODUs) * time.Microsecond }
+
+// variant names what distinguishes the case from the plain grid (part of every signature it raises).
+func (s spec) variant() string {
+	v := ""
+	if s.Inh {
+		v += "/inherited"
+	}
+	switch {
+	case s.ODUs == 0:
+	case s.ODUs < s.DUs:
+		v += "/other-deadline-shorter"
+	default:
+		v += "/other-deadline-longer"
+	}
+	return v
+}
 
 func TestMain(m *testing.M) { hx.Main(m) }
 
@@ -354,6 +383,135 @@ func genCases(rnd *rand.Rand, thorough bool) []mon.CaseSpec {
 			}
 		}
 	}
+	// ==== second part (appended, so the cases above are what they were): the deadline of the other
+	// direction, options that reach a context by inheritance only, peers leaving a call that has no
+	// fail-no-peers
+	both := func(proto, obj string) bool { return table[proto].has(obj, optRD) && table[proto].has(obj, optSD) }
+	blockedPeer := func(o objRef, op string) (string, string) { // peer, transport
+		if op == "send" && sendFam[o.proto] == "reply" {
+			return "slow", "inproc"
+		}
+		pr := []string{"none", "vt"}[rnd.Intn(2)]
+		if op == "recv" && o.proto == "req" && rnd.Intn(2) == 0 {
+			pr = "vt" // the request was transmitted (with no peer it is only queued)
+		}
+		return pr, ""
+	}
+	for rep := 0; rep < reps; rep++ {
+		pickD := func() int64 {
+			if thorough && rnd.Intn(3) == 0 {
+				return int64(2000 + rnd.Intn(60000))
+			}
+			return []int64{20000, 100000}[rnd.Intn(2)]
+		}
+		// other(d, v): v=0 not set, 1 a quarter of d, 2 twenty times d
+		other := func(d int64, v int) int64 { return []int64{0, d / 4, 20 * d}[v] }
+		type opObj struct {
+			o  objRef
+			op string
+		}
+		var ctxs, crosses []opObj
+		for _, o := range sendObjs() {
+			if o.obj == "ctx" {
+				ctxs = append(ctxs, opObj{o, "send"})
+			}
+			if both(o.proto, o.obj) {
+				crosses = append(crosses, opObj{o, "send"})
+			}
+		}
+		for _, o := range recvObjs() {
+			if o.obj == "ctx" {
+				ctxs = append(ctxs, opObj{o, "recv"})
+			}
+			if both(o.proto, o.obj) {
+				crosses = append(crosses, opObj{o, "recv"})
+			}
+		}
+		// ---- dl-inherit: the socket has the deadline(s) when the context is opened; the context's
+		// blocked call follows the deadline of its own direction
+		for i, x := range ctxs {
+			d := pickD()
+			v := 0
+			otherOpt := optRD
+			if x.op == "recv" {
+				otherOpt = optSD
+			}
+			if table[x.o.proto].sock[otherOpt] {
+				v = (rep + i + rnd.Intn(2)) % 3
+			}
+			pr, tr := blockedPeer(x.o, x.op)
+			s := spec{Kind: "dl-inherit", Proto: x.o.proto, Obj: "ctx", Op: x.op, Peer: pr, Tr: tr, DUs: d, ODUs: other(d, v), Inh: true, NPipes: 1, Q: pickQ(1)}
+			if x.op == "send" {
+				s.State = "full"
+			}
+			add(s)
+		}
+		// ---- dl-cross: both deadlines set on the object itself, different values
+		ncross := 6
+		if thorough {
+			ncross = len(crosses)
+		}
+		for _, k := range rnd.Perm(len(crosses))[:ncross] {
+			x := crosses[k]
+			d := pickD()
+			pr, tr := blockedPeer(x.o, x.op)
+			s := spec{Kind: "dl-cross", Proto: x.o.proto, Obj: x.o.obj, Op: x.op, Peer: pr, Tr: tr, DUs: d, ODUs: other(d, 1+rnd.Intn(2)), NPipes: 1, Q: pickQ(1)}
+			if x.op == "send" {
+				s.State = "full"
+			}
+			add(s)
+		}
+		// ---- best effort / fail-no-peers that the context has by inheritance only
+		for _, o := range sendObjs() {
+			if o.obj != "ctx" {
+				continue
+			}
+			fam := sendFam[o.proto]
+			if table[o.proto].sock[optBE] && table[o.proto].ctx[optBE] {
+				s := spec{Kind: "be", Proto: o.proto, Obj: "ctx", Op: "send", Peer: "vt", NPipes: 1, Q: pickQ(2), State: "full", Inh: true, WithDL: rnd.Intn(2) == 0}
+				if fam == "reply" {
+					s.Peer, s.Tr = "slow", "inproc"
+				} else if rnd.Intn(2) == 0 {
+					s.Peer = "none"
+				}
+				if s.WithDL {
+					s.DUs = 150000
+				}
+				add(s)
+			}
+			if table[o.proto].sock[optFNP] && table[o.proto].ctx[optFNP] {
+				s := spec{Kind: "fnp-none", Proto: o.proto, Obj: "ctx", Op: "send", Peer: "none", Left: rnd.Intn(2) == 0, WithDL: rnd.Intn(2) == 0, Q: pickQ(1), NPipes: 1, Inh: true}
+				if s.WithDL {
+					s.DUs = 2000000
+				}
+				add(s)
+			}
+		}
+		// ---- nodl-leave: no deadline, no fail-no-peers, the peers leave during the wait
+		for _, o := range sendObjs() {
+			if sendFam[o.proto] == "reply" {
+				continue // a replier's Send is addressed to one peer; that peer leaving ends it (nothing to wait for)
+			}
+			n := 1
+			if multiPeer[o.proto] && rnd.Intn(2) == 0 {
+				n = 2
+			}
+			add(spec{Kind: "nodl-leave", Proto: o.proto, Obj: o.obj, Op: "send", Peer: "vt-leave", NPipes: n, Q: pickQ(1), State: "full"})
+		}
+		ros := recvObjs()
+		nr := 4
+		if thorough {
+			nr = len(ros)
+		}
+		for _, k := range rnd.Perm(len(ros))[:nr] {
+			n := 1 + rnd.Intn(2)
+			switch ros[k].proto {
+			case "pair", "xpair", "pair1", "xpair1":
+				n = 1 // one peer at a time
+			}
+			add(spec{Kind: "nodl-leave", Proto: ros[k].proto, Obj: ros[k].obj, Op: "recv", Peer: "vt-leave", NPipes: n, Q: pickQ(1)})
+		}
+	}
 	return cases
 }
 
@@ -361,8 +519,10 @@ func runCase(c *mon.Case, sp spec) {
 	switch sp.Kind {
 	case "matrix":
 		runMatrix(c, sp)
-	case "dl-block":
+	case "dl-block", "dl-inherit", "dl-cross":
 		runBlocked(c, sp)
+	case "nodl-leave":
+		runNoDeadlineLeave(c, sp)
 	case "dl-ready":
 		runReady(c, sp)
 	case "nodl":
